@@ -68,7 +68,7 @@ func (l *AcctListener) Accept() (net.Conn, error) {
 	l.mu.Unlock()
 	atomic.AddInt64(&l.accepts, 1)
 	if pf != nil {
-		ac.plan = pf(ac.Index, c)
+		ac.plan = pf(ac.Index, ac)
 	}
 	return ac, nil
 }
